@@ -292,7 +292,7 @@ func feed4on(t *Trace, ll *live4, in in4, r *rand.Rand, evname string) {
 	e := Ev{"ev": evname, "in": in.ev(), "parsed": perr == nil, "panic": pan != nil}
 	out := Ev{"sent": false, "n": 0, "type": -1, "opcode": -1, "eqxid": false, "eqhtype": false, "eqchaddr": false, "eqflags": false,
 		"eqgiaddr": false, "eqrai": false, "eqcid": false, "pgi": false, "pbc": false, "pci": false, "pyi": false, "port": 0, "ifindex": 0,
-		"woob": false, "l2": false, "frame": false, "fdmac": false, "fdip": false, "fsport": 0, "fdport": 0, "fif": 0, "fsmac": false}
+		"woob": false, "l2": false, "frame": false, "fdmac": false, "fdip": false, "fsport": 0, "fdport": 0, "fif": 0, "fsmac": false, "fwire": false, "fpay": false}
 	capt.mu.Lock()
 	sent := append([]server.VerifSent4(nil), capt.s4...)
 	frames := capt.frames
@@ -336,6 +336,13 @@ func feed4on(t *Trace, ll *live4, in in4, r *rand.Rand, evname string) {
 				out["fdip"] = ip.DstIP.Equal(s.Resp.YourIPAddr)
 				out["fsport"] = int(udp.SrcPort)
 				out["fdport"] = int(udp.DstPort)
+				// the frame as a whole: lengths and checksums a receiver would verify, and the reply itself as payload
+				out["fwire"] = frameWireOK(frames[0], ip, udp)
+				if pay, err := dhcpv4.FromBytes(udp.Payload); err == nil {
+					out["fpay"] = pay.TransactionID == s.Resp.TransactionID && pay.YourIPAddr.Equal(s.Resp.YourIPAddr) && pay.MessageType() == s.Resp.MessageType() &&
+						bytes.Equal(pay.ClientHWAddr, s.Resp.ClientHWAddr) && bytes.Equal(pay.Options.Get(dhcpv4.OptionServerIdentifier), s.Resp.Options.Get(dhcpv4.OptionServerIdentifier)) &&
+						bytes.Equal(pay.Options.Get(dhcpv4.OptionIPAddressLeaseTime), s.Resp.Options.Get(dhcpv4.OptionIPAddressLeaseTime))
+				}
 				if len(fifs) == 1 {
 					// the interface the frame leaves on, and the source address it carries: that interface's own
 					out["fif"] = fifs[0].Index
@@ -350,6 +357,50 @@ func feed4on(t *Trace, ll *live4, in in4, r *rand.Rand, evname string) {
 	}
 	e["out"] = out
 	t.Emit(e)
+}
+
+func csum16(b []byte, init uint32) uint16 {
+	sum := init
+	for i := 0; i+1 < len(b); i += 2 {
+		sum += uint32(b[i])<<8 | uint32(b[i+1])
+	}
+	if len(b)%2 == 1 {
+		sum += uint32(b[len(b)-1]) << 8
+	}
+	for sum>>16 != 0 {
+		sum = sum&0xffff + sum>>16
+	}
+	return uint16(sum)
+}
+
+// frameWireOK: IPv4 header checksum, total length, UDP length and UDP checksum (pseudo header) of an Ethernet frame
+func frameWireOK(frame []byte, ip *layers.IPv4, udp *layers.UDP) bool {
+	if len(frame) < 14+20+8 {
+		return false
+	}
+	iph := frame[14:]
+	ihl := int(iph[0]&0x0f) * 4
+	if ihl < 20 || len(iph) < ihl+8 || csum16(iph[:ihl], 0) != 0xffff {
+		return false
+	}
+	total := int(iph[2])<<8 | int(iph[3])
+	if total != len(iph) || ip.TTL == 0 {
+		return false
+	}
+	u := iph[ihl:]
+	ulen := int(u[4])<<8 | int(u[5])
+	if ulen != len(u) {
+		return false
+	}
+	if u[6] == 0 && u[7] == 0 {
+		return true // no UDP checksum: allowed over IPv4
+	}
+	pseudo := uint32(0)
+	for i := 12; i < 20; i += 2 {
+		pseudo += uint32(iph[i])<<8 | uint32(iph[i+1])
+	}
+	pseudo += 17 + uint32(ulen)
+	return csum16(u, pseudo) == 0xffff
 }
 
 func runD4(t *Trace, seed int64, full bool, shard, shards int) {
@@ -908,8 +959,12 @@ func registerSyn() {
 			Setup6: func(args ...string) (handler.Handler6, error) { return nil, fmt.Errorf("syn_fail: setup refused") }})
 		// a failing setup that hands back a usable handler TOGETHER with its error (several built-in plugins do): still a failure
 		reg(&plugins.Plugin{Name: "syn_failh",
-			Setup4: func(args ...string) (handler.Handler4, error) { return synHandler4("pass", 99), fmt.Errorf("syn_failh: setup refused") },
-			Setup6: func(args ...string) (handler.Handler6, error) { return synHandler6("pass", 99), fmt.Errorf("syn_failh: setup refused") }})
+			Setup4: func(args ...string) (handler.Handler4, error) {
+				return synHandler4("pass", 99), fmt.Errorf("syn_failh: setup refused")
+			},
+			Setup6: func(args ...string) (handler.Handler6, error) {
+				return synHandler6("pass", 99), fmt.Errorf("syn_failh: setup refused")
+			}})
 		reg(&plugins.Plugin{Name: "syn_nilh",
 			Setup4: func(args ...string) (handler.Handler4, error) { return nil, nil },
 			Setup6: func(args ...string) (handler.Handler6, error) { return nil, nil }})
